@@ -72,6 +72,32 @@ Section CF.
 
   Notation fold_go := CompileCorrect.fold_go.
 
+  (** sums of constructed pieces - the entries of an object, the parts of a string: nothing, one piece, or the first piece
+      added to the sum of the others ([one] is the semantics of a piece, [rest] the sum one level of fuel below) *)
+  Definition sum_body {X} (one : X -> str val) (rest : list X -> str val) (dflt : val) (xs : list X) : str val :=
+    match xs with
+    | [] => sone dflt
+    | [x] => one x
+    | x :: r => sbind (sbind (rest [x]) (fun a => smap (fun y => (a, y)) (rest r)))
+                  (fun xy => of_res_opt (math_run Add (fst xy) (snd xy)))
+    end.
+
+  (** an entry of an object construction: `{$x}`, `{k}` (the value is `.[k]`), `{k: v}`; [S] is the semantics of subterms *)
+  Definition ent_sem (S : pterm -> str val) (m : nat) (kv : pterm * option pterm) : str val :=
+    let single := fun (ks vs : str val) => smap (fun kv => from_map [kv]) (sbind ks (fun a => smap (fun y => (a, y)) vs)) in
+    match kv with
+    | (PVar x, None) => single (match m with O => SBot | S _ => sone (TStr (tl x)) end) (S (PVar x))
+    | (k, None) => single (S k) (S (PPath PId [(PIndex k, false)]))
+    | (k, Some v') => single (S k) (S v')
+    end.
+
+  (** a part of a string: literal text, or an interpolated filter whose outputs are converted to text *)
+  Definition part_sem (S : pterm -> str val) (m : nat) (p : strpart) : str val :=
+    match p with
+    | SPStr x => sone (TStr x)
+    | SPTerm f => sbind (S f) (fun y => match m with O => SBot | S _ => sone (into_string d y) end)
+    end.
+
   Fixpoint sem (n : nat) (t : pterm) (rho : nenv) (phi0 : list fent) (lab : nat) (v : val) {struct n} : str val :=
     match n with
     | O => SBot
@@ -131,8 +157,24 @@ Section CF.
               | _ => SUnk
               end
             else SUnk
+        | PRecurse => recurse_vals n v
+        | PIte [(i, th)] None => sbind (sem n i rho phi lab v) (fun x => sem n (if as_bool x then th else PId) rho phi lab v)
+        | PObj kvs => sum_body (ent_sem (fun t => sem n t rho phi lab v) n) (fun l => sobj n l rho phi lab v) (Obj []) kvs
+        | PStr None parts => sum_body (part_sem (fun t => sem n t rho phi lab v) n) (fun l => sstr n l rho phi lab v) (TStr []) parts
         | _ => SUnk
         end
+    end
+
+  (** the sum of the entries of an object / of the parts of a string at fuel n *)
+  with sobj (n : nat) (kvs : list (pterm * option pterm)) (rho : nenv) (phi : list fent) (lab : nat) (v : val) {struct n} : str val :=
+    match n with
+    | O => SBot
+    | S m => sum_body (ent_sem (fun t => sem m t rho phi lab v) m) (fun l => sobj m l rho phi lab v) (Obj []) kvs
+    end
+  with sstr (n : nat) (parts : list strpart) (rho : nenv) (phi : list fent) (lab : nat) (v : val) {struct n} : str val :=
+    match n with
+    | O => SBot
+    | S m => sum_body (part_sem (fun t => sem m t rho phi lab v) m) (fun l => sstr m l rho phi lab v) (TStr []) parts
     end
 
   (** the values of the variable arguments of a call, all combinations, first argument outermost; filter arguments are not
@@ -202,6 +244,10 @@ Section CF.
       frag (map pname (rev ps) ++ b) ((f, length ps) :: map (fun p => (p, 0%nat)) (rev (fparams ps)) ++ fs) n body ->
       frag b ((f, length ps) :: fs) (S n) t ->
       frag b fs (S (S n)) (PDef [PDefn f ps body] t)
+  | f_recurse b fs n : frag b fs (S n) PRecurse
+  | f_ite1 b fs n i th : frag b fs n i -> frag b fs n th -> frag b fs (S n) (PIte [(i, th)] None)
+  | f_obj b fs n kvs : frag_kvs b fs n kvs -> frag b fs (S n) (PObj kvs)
+  | f_str b fs n parts : frag_strs b fs n parts -> frag b fs (S n) (PStr None parts)
   with frag_args : list cbind -> list (bytes * nat) -> nat -> list pterm -> Prop :=
   | fa_nil b fs n : frag_args b fs n []
   | fa_cons b fs n a r : frag b fs n a -> frag_args b fs n r -> frag_args b fs n (a :: r)
@@ -211,12 +257,23 @@ Section CF.
   | fp_all b fs n o ps : frag_parts b fs n ps -> frag_parts b fs n ((PRange None None, o) :: ps)
   | fp_from b fs n f o ps : frag b fs n f -> frag_parts b fs n ps -> frag_parts b fs n ((PRange (Some f) None, o) :: ps)
   | fp_upto b fs n u o ps : frag b fs n u -> frag_parts b fs n ps -> frag_parts b fs n ((PRange None (Some u), o) :: ps)
-  | fp_both b fs n f u o ps : frag b fs n f -> frag b fs n u -> frag_parts b fs n ps -> frag_parts b fs n ((PRange (Some f) (Some u), o) :: ps).
+  | fp_both b fs n f u o ps : frag b fs n f -> frag b fs n u -> frag_parts b fs n ps -> frag_parts b fs n ((PRange (Some f) (Some u), o) :: ps)
+  with frag_kvs : list cbind -> list (bytes * nat) -> nat -> list (pterm * option pterm) -> Prop :=
+  | fk_nil b fs n : frag_kvs b fs n []
+  | fk_var b fs n x r : frag b fs n (PVar x) -> frag_kvs b fs n r -> frag_kvs b fs n ((PVar x, None) :: r)
+  | fk_key b fs n k r : (forall x, k <> PVar x) -> frag b fs n k -> frag_kvs b fs n r -> frag_kvs b fs n ((k, None) :: r)
+  | fk_kv b fs n k v r : frag b fs n k -> frag b fs n v -> frag_kvs b fs n r -> frag_kvs b fs n ((k, Some v) :: r)
+  with frag_strs : list cbind -> list (bytes * nat) -> nat -> list strpart -> Prop :=
+  | fs_nil b fs n : frag_strs b fs n []
+  | fs_lit b fs n x r : frag_strs b fs n r -> frag_strs b fs n (SPStr x :: r)
+  | fs_term b fs n f r : frag b fs n f -> frag_strs b fs n r -> frag_strs b fs n (SPTerm f :: r).
 
   Scheme frag_ind2 := Minimality for frag Sort Prop
     with frag_args_ind2 := Minimality for frag_args Sort Prop
-    with frag_parts_ind2 := Minimality for frag_parts Sort Prop.
-  Combined Scheme frag_mutind from frag_ind2, frag_args_ind2, frag_parts_ind2.
+    with frag_parts_ind2 := Minimality for frag_parts Sort Prop
+    with frag_kvs_ind2 := Minimality for frag_kvs Sort Prop
+    with frag_strs_ind2 := Minimality for frag_strs Sort Prop.
+  Combined Scheme frag_mutind from frag_ind2, frag_args_ind2, frag_parts_ind2, frag_kvs_ind2, frag_strs_ind2.
 
   (** ** compile-time environment, run-time context, named environment *)
   Definition scoped (b : list cbind) (e : env) : Prop := forall x, In x b -> index_of x (e_vars e) 0 <> None.
@@ -474,6 +531,100 @@ Section CF.
                bind_vars defs fuel (combine (map is_var_name ps) cargs) acc c v
                = smap (fun ys => mkctx (map is_var_name ps) cargs ys c acc) (svals fuel args ps rho phi (labels c) v).
 
+
+  (** ** objects and strings: the loops inside [c_term] and the sums they build *)
+  Definition c_ent (m : nat) (e : env) (s : cst) (kv : pterm * option pterm) : term * cst :=
+    match kv with
+    | (PVar x, None) => let '((v, _), s) := c_term g m e s (PVar x) [] in (KObjSingle (KStr (tl x)) v, s)
+    | (k, None) => let '((k, _), s) := c_term g m e s k [] in (KObjSingle k (KPath KId [(Index k, false)]), s)
+    | (k, Some v) => let '((k, _), s) := c_term g m e s k [] in let '((v, _), s) := c_term g m e s v [] in (KObjSingle k v, s)
+    end.
+  Fixpoint c_kvs (m : nat) (e : env) (s : cst) (kvs : list (pterm * option pterm)) : list term * cst :=
+    match kvs with
+    | [] => ([], s)
+    | kv :: r => let '(t, s) := c_ent m e s kv in let '(r', s) := c_kvs m e s r in (t :: r', s)
+    end.
+  Lemma c_obj m e s kvs tr :
+    c_term g (S m) e s (PObj kvs) tr = let '(ts, s') := c_kvs m e s kvs in ((sum_or KObjEmpty ts, []), s').
+  Proof.
+    cbn [c_term].
+    match goal with |- (let '(kvs0, s0) := ?F s kvs in _) = _ => assert (E : forall l s', F s' l = c_kvs m e s' l) end.
+    { induction l as [|[k [v|]] r IH]; intros s'; [reflexivity| |].
+      - cbn [c_kvs c_ent]. destruct k; destruct (c_term g m e s' _ []) as [[k' tk] sk]; destruct (c_term g m e sk v []) as [[v' tv] sv]; rewrite IH; reflexivity.
+      - cbn [c_kvs c_ent]. destruct k; destruct (c_term g m e s' _ []) as [[k' tk] sk]; rewrite IH; reflexivity. }
+    rewrite E. reflexivity.
+  Qed.
+
+  Fixpoint c_strs (m : nat) (e : env) (s : cst) (ps : list strpart) : list term * cst :=
+    match ps with
+    | [] => ([], s)
+    | SPStr x :: r => let '(r', s) := c_strs m e s r in (KStr x :: r', s)
+    | SPTerm f :: r => let '((f', _), s) := c_term g m e s f [] in let '(r', s) := c_strs m e s r in (KPipe f' None KToString :: r', s)
+    end.
+  Lemma c_str m e s parts tr :
+    c_term g (S m) e s (PStr None parts) tr = let '(ts, s') := c_strs m e s parts in ((sum_or (KStr []) ts, []), s').
+  Proof.
+    cbn [c_term].
+    match goal with |- (let '(ps0, s0) := ?F s parts in _) = _ => assert (E : forall l s', F s' l = c_strs m e s' l) end.
+    { induction l as [|[x|f] r IH]; intros s'; [reflexivity| |]; cbn [c_strs].
+      - rewrite IH. reflexivity.
+      - destruct (c_term g m e s' f []) as [[f' tf] sf]. rewrite IH. reflexivity. }
+    rewrite E. reflexivity.
+  Qed.
+
+  Lemma c_ite1 n e s i t tr :
+    c_term g (S n) e s (PIte [(i, t)] None) tr =
+    let '((i', _), s1) := c_term g n e s i [] in
+    let '((t', trt), s2) := c_term g n e s1 t tr in
+    ((KIte i' t' KId, union trt []), s2).
+  Proof. cbn [c_term]. destruct (c_term g n e s i []) as [[i' t0] s1]. destruct (c_term g n e s1 t tr) as [[t' trt] s2]. reflexivity. Qed.
+
+  Lemma run_objsingle defs m k x c v :
+    run defs (S m) (KObjSingle k x) c v = smap (fun kv => from_map [kv]) (sbind (run defs m k c v) (fun a => smap (fun y => (a, y)) (run defs m x c v))).
+  Proof. reflexivity. Qed.
+  Lemma run_math defs m l op r c v :
+    run defs (S m) (KMath l op r) c v
+    = sbind (sbind (run defs m l c v) (fun a => smap (fun y => (a, y)) (run defs m r c v))) (fun xy => of_res_opt (math_run op (fst xy) (snd xy))).
+  Proof. reflexivity. Qed.
+  Lemma run_pipe0 defs m l r c v : run defs (S m) (KPipe l None r) c v = sbind (run defs m l c v) (fun y => run defs m r c y).
+  Proof. reflexivity. Qed.
+
+  (** the sum of compiled pieces computes the sum of their semantics, for every fuel up to a bound *)
+  Lemma sum_correct {X} (one : nat -> X -> str val) (sumf : nat -> list X -> str val) dflt kd defs c v F :
+    (forall m xs, sumf (S m) xs = sum_body (one m) (sumf m) dflt xs) -> (forall xs, sumf 0%nat xs = SBot) ->
+    (forall fuel, run defs fuel kd c v = match fuel with O => SBot | S _ => sone dflt end) ->
+    forall xs ts, Forall2 (fun x t => forall fuel, (fuel <= F)%nat -> run defs fuel t c v = match fuel with O => SBot | S m => one m x end) xs ts ->
+    forall fuel, (fuel <= F)%nat -> run defs fuel (sum_or kd ts) c v = sumf fuel xs.
+  Proof.
+    intros HS H0 Hd xs ts HF. induction HF as [|x t xs ts Hxt HF IH]; intros fuel Hle.
+    - cbn [sum_or]. rewrite Hd. destruct fuel; [rewrite H0; reflexivity|rewrite HS; reflexivity].
+    - assert (ONE : forall fuel, (fuel <= F)%nat -> run defs fuel t c v = sumf fuel [x]).
+      { intros f Hf. rewrite (Hxt f Hf). destruct f; [rewrite H0; reflexivity|rewrite HS; reflexivity]. }
+      destruct HF as [|x2 t2 xs ts Hx2 HF].
+      + cbn [sum_or]. apply ONE. exact Hle.
+      + change (sum_or kd (t :: t2 :: ts)) with (KMath t Add (sum_or kd (t2 :: ts))).
+        destruct fuel as [|m]; [rewrite H0; reflexivity|]. rewrite run_math, HS. cbn [sum_body].
+        rewrite (ONE m ltac:(lia)). rewrite (IH m ltac:(lia)). reflexivity.
+  Qed.
+
+  Definition ent_one (rho : nenv) (phi : list fent) (lab : nat) (v : val) (m : nat) (kv : pterm * option pterm) : str val :=
+    ent_sem (fun t => sem m t rho phi lab v) m kv.
+  Definition part_one (rho : nenv) (phi : list fent) (lab : nat) (v : val) (m : nat) (p : strpart) : str val :=
+    part_sem (fun t => sem m t rho phi lab v) m p.
+
+  Definition P_kvs (b : list cbind) (fs : list (bytes * nat)) (n : nat) (kvs : list (pterm * option pterm)) : Prop :=
+    forall m e s, (n <= m)%nat -> scoped b e -> fscoped fs e ->
+    exists ts s', c_kvs m e s kvs = (ts, s') /\ extends s s'
+      /\ forall defs, covers s s' defs -> forall F c rho phi v, agrees defs F e c rho -> funs_ok defs F (e_funs e) rho phi ->
+          Forall2 (fun kv t => forall fuel, (fuel <= F)%nat ->
+                     run defs fuel t c v = match fuel with O => SBot | S m' => ent_one rho phi (labels c) v m' kv end) kvs ts.
+  Definition P_strs (b : list cbind) (fs : list (bytes * nat)) (n : nat) (ps : list strpart) : Prop :=
+    forall m e s, (n <= m)%nat -> scoped b e -> fscoped fs e ->
+    exists ts s', c_strs m e s ps = (ts, s') /\ extends s s'
+      /\ forall defs, covers s s' defs -> forall F c rho phi v, agrees defs F e c rho -> funs_ok defs F (e_funs e) rho phi ->
+          Forall2 (fun p t => forall fuel, (fuel <= F)%nat ->
+                     run defs fuel t c v = match fuel with O => SBot | S m' => part_one rho phi (labels c) v m' p end) ps ts.
+
   Ltac start := intros m e s tr Hm Hsc Hfs; (destruct m as [|m]; [lia|]).
   Ltac sem0 := intros defs Hc fuel c rho phi v Hag0 Hfr; (destruct fuel as [|fuel]; [reflexivity|]);
                cbn [Run.run sem strip push_defs fold_left]; pose proof (funs_pred _ _ _ _ _ Hfr) as Hfr';
@@ -720,11 +871,34 @@ Section CF.
     unfold fparams. apply filter_In. split; [exact Hx|]. rewrite V. reflexivity.
   Qed.
 
+
+  Lemma c_ent_key m e s k : (forall x, k <> PVar x) ->
+    c_ent m e s (k, None) = let '((k', _), s') := c_term g m e s k [] in (KObjSingle k' (KPath KId [(Index k', false)]), s').
+  Proof. intros H. destruct k; try reflexivity. exfalso. eapply H. reflexivity. Qed.
+  Lemma ent_sem_key (S : pterm -> str val) m k : (forall x, k <> PVar x) ->
+    ent_sem S m (k, None) = smap (fun kv => from_map [kv]) (sbind (S k) (fun a => smap (fun y => (a, y)) (S (PPath PId [(PIndex k, false)])))).
+  Proof. intros H. destruct k; try reflexivity. exfalso. eapply H. reflexivity. Qed.
+
+  (** `{k}` takes its value from the input: `.[k]` *)
+  Lemma self_index_ok defs k k' c rho phi v F :
+    (forall fuel, (fuel <= F)%nat -> run defs fuel k' c v = sem fuel k rho phi (labels c) v) ->
+    forall fuel, (fuel <= F)%nat ->
+      run defs fuel (KPath KId [(Index k', false)]) c v = sem fuel (PPath PId [(PIndex k, false)]) rho phi (labels c) v.
+  Proof.
+    intros R fuel Hle. destruct fuel as [|m1]; [reflexivity|]. rewrite CompileCorrect.run_path. cbn [sem strip push_defs fold_left].
+    assert (run defs m1 KId c v = sem m1 PId rho phi (labels c) v) as -> by (destruct m1; reflexivity). f_equal.
+    apply functional_extensionality. intros y. f_equal.
+    destruct m1 as [|m2]; [reflexivity|]. rewrite CompileCorrect.explode_cons. cbn [sexplode]. rewrite (R m2 ltac:(lia)). f_equal.
+    apply functional_extensionality. intros p'. f_equal. destruct m2; reflexivity.
+  Qed.
+
   Lemma compile_closures_mut :
     (forall b fs n t, frag b fs n t -> P_term b fs n t) /\ (forall b fs n args, frag_args b fs n args -> P_args b fs n args)
-    /\ (forall b fs n ps, frag_parts b fs n ps -> P_parts b fs n ps).
+    /\ (forall b fs n ps, frag_parts b fs n ps -> P_parts b fs n ps)
+    /\ (forall b fs n kvs, frag_kvs b fs n kvs -> P_kvs b fs n kvs)
+    /\ (forall b fs n ps, frag_strs b fs n ps -> P_strs b fs n ps).
   Proof.
-    apply frag_mutind; unfold P_term, P_args, P_parts.
+    apply frag_mutind; unfold P_term, P_args, P_parts, P_kvs, P_strs.
     - (* . *) intros b fs n. start. exists KId, [], s. split; [reflexivity|]. split; [apply extends_refl|]. sem0. reflexivity.
     - (* number *) intros b fs n x. start. eexists _, [], s. split; [reflexivity|]. split; [apply extends_refl|]. sem0.
       destruct (int_literal x); reflexivity.
@@ -1024,6 +1198,28 @@ Section CF.
              split; [reflexivity|]. split; [exact FV|]. split; [exists []; reflexivity|]. split; [exact Hdid|].
              intros f'' Hf'' c'' v'' bs'' M'' K'' C''. apply CL; [lia|exact M''|exact K''|exact C''].
           -- apply Hfr. exact Hf'.
+    - (* .. *) intros b fs n. start. exists KRecurse, [], s. split; [reflexivity|]. split; [apply extends_refl|]. sem0. reflexivity.
+    - (* if without else *) intros b fs n i th Hi IHi Hth IHth. start.
+      destruct (IHi m e s [] ltac:(lia) Hsc Hfs) as (k1 & tr1 & s1 & E1 & X1 & R1).
+      destruct (IHth m e s1 tr ltac:(lia) Hsc Hfs) as (k2 & tr2 & s2 & E2 & X2 & R2).
+      exists (KIte k1 k2 KId), (union tr2 []), s2. split; [rewrite c_ite1, E1, E2; reflexivity|].
+      split; [eapply extends_trans; eassumption|]. sem0.
+      rewrite (R1 defs (covers_left _ _ _ _ X1 X2 Hc) fuel c rho phi v Hag Hfr'). f_equal.
+      apply functional_extensionality. intros y. destruct (as_bool y).
+      + apply (R2 defs (covers_right _ _ _ _ X1 X2 Hc) fuel c rho phi); assumption.
+      + destruct fuel; reflexivity.
+    - (* object *) intros b fs n kvs Hk IHk. start. destruct (IHk m e s ltac:(lia) Hsc Hfs) as (ts & s1 & E1 & X1 & R1).
+      exists (sum_or KObjEmpty ts), [], s1. split; [rewrite c_obj, E1; reflexivity|]. split; [exact X1|].
+      intros defs Hc fuel c rho phi v Hag Hfr. pose proof (R1 defs Hc fuel c rho phi v Hag Hfr) as HF.
+      rewrite (sum_correct (ent_one rho phi (labels c) v) (fun f l => sobj f l rho phi (labels c) v) (Obj []) KObjEmpty defs c v fuel
+                 ltac:(reflexivity) ltac:(reflexivity) ltac:(intros f0; destruct f0; reflexivity) kvs ts HF fuel (le_n _)).
+      destruct fuel; reflexivity.
+    - (* string *) intros b fs n parts Hp IHp. start. destruct (IHp m e s ltac:(lia) Hsc Hfs) as (ts & s1 & E1 & X1 & R1).
+      exists (sum_or (KStr []) ts), [], s1. split; [rewrite c_str, E1; reflexivity|]. split; [exact X1|].
+      intros defs Hc fuel c rho phi v Hag Hfr. pose proof (R1 defs Hc fuel c rho phi v Hag Hfr) as HF.
+      rewrite (sum_correct (part_one rho phi (labels c) v) (fun f l => sstr f l rho phi (labels c) v) (TStr []) (KStr []) defs c v fuel
+                 ltac:(reflexivity) ltac:(reflexivity) ltac:(intros f0; destruct f0; reflexivity) parts ts HF fuel (le_n _)).
+      destruct fuel; reflexivity.
     - (* no arguments *) intros b fs n m e s Hm Hsc Hfs. exists [], s. split; [reflexivity|]. split; [apply extends_refl|]. split; [reflexivity|].
       intros defs Hc. split; [constructor|]. intros ps fuel c rho phi v acc L Hag Hfr. destruct ps; [|discriminate]. destruct fuel; reflexivity.
     - (* an argument *) intros b fs n a r Ha IHa Hr IHr m e s Hm Hsc Hfs.
@@ -1077,6 +1273,60 @@ Section CF.
       rewrite (R1 defs (covers_left _ _ _ _ X1 X2 Hc12) fuel c rho phi v Hag Hfr'), (R2 defs (covers_right _ _ _ _ X1 X2 Hc12) fuel c rho phi v Hag Hfr'),
         (R3 defs (covers_right _ _ _ _ X12 X3 Hc) fuel c rho phi v Hag Hfr').
       reflexivity.
+    - (* no entry *) intros b fs n m e s Hm Hsc Hfs. exists [], s. split; [reflexivity|]. split; [apply extends_refl|]. intros. constructor.
+    - (* {$x} *) intros b fs n x r Hx IHx Hr IHr m e s Hm Hsc Hfs.
+      destruct (IHx m e s [] Hm Hsc Hfs) as (kx & trx & s1 & E1 & X1 & R1).
+      destruct (IHr m e s1 Hm Hsc Hfs) as (tr_ & s2 & E2 & X2 & R2).
+      exists (KObjSingle (KStr (tl x)) kx :: tr_), s2. split; [cbn [c_kvs c_ent]; rewrite E1, E2; reflexivity|].
+      split; [eapply extends_trans; eassumption|].
+      intros defs Hc F c rho phi v Hag Hfr. constructor; [|apply (R2 defs (covers_right _ _ _ _ X1 X2 Hc) F c rho phi v Hag Hfr)].
+      intros fuel Hle. destruct fuel as [|mm]; [reflexivity|]. rewrite run_objsingle. unfold ent_one, ent_sem.
+      rewrite (R1 defs (covers_left _ _ _ _ X1 X2 Hc) mm c rho phi v (agrees_fuel _ F mm _ _ _ ltac:(lia) Hag) (funs_ok_fuel _ F mm _ _ _ ltac:(lia) Hfr)).
+      assert (run defs mm (KStr (tl x)) c v = match mm with O => SBot | S _ => sone (TStr (tl x)) end) as -> by (destruct mm; reflexivity).
+      reflexivity.
+    - (* {k} *) intros b fs n k r Hnv Hk IHk Hr IHr m e s Hm Hsc Hfs.
+      destruct (IHk m e s [] Hm Hsc Hfs) as (kk & trk & s1 & E1 & X1 & R1).
+      destruct (IHr m e s1 Hm Hsc Hfs) as (tr_ & s2 & E2 & X2 & R2).
+      exists (KObjSingle kk (KPath KId [(Index kk, false)]) :: tr_), s2. split; [cbn [c_kvs]; rewrite (c_ent_key _ _ _ _ Hnv), E1, E2; reflexivity|].
+      split; [eapply extends_trans; eassumption|].
+      intros defs Hc F c rho phi v Hag Hfr. constructor; [|apply (R2 defs (covers_right _ _ _ _ X1 X2 Hc) F c rho phi v Hag Hfr)].
+      assert (RK : forall fuel, (fuel <= F)%nat -> run defs fuel kk c v = sem fuel k rho phi (labels c) v).
+      { intros f0 Hf0. apply (R1 defs (covers_left _ _ _ _ X1 X2 Hc) f0 c rho phi v); [eapply agrees_fuel; eassumption|eapply funs_ok_fuel; eassumption]. }
+      intros fuel Hle. destruct fuel as [|mm]; [reflexivity|]. rewrite run_objsingle. unfold ent_one. rewrite (ent_sem_key _ _ _ Hnv).
+      rewrite (RK mm ltac:(lia)). rewrite (self_index_ok defs k kk c rho phi v F RK mm ltac:(lia)). reflexivity.
+    - (* {k: v} *) intros b fs n k v0 r Hk IHk Hv IHv Hr IHr m e s Hm Hsc Hfs.
+      destruct (IHk m e s [] Hm Hsc Hfs) as (kk & trk & s1 & E1 & X1 & R1).
+      destruct (IHv m e s1 [] Hm Hsc Hfs) as (kv & trv & s2 & E2 & X2 & R2).
+      destruct (IHr m e s2 Hm Hsc Hfs) as (tr_ & s3 & E3 & X3 & R3).
+      assert (X12 : extends s s2) by (eapply extends_trans; eassumption).
+      exists (KObjSingle kk kv :: tr_), s3. split.
+      + cbn [c_kvs]. assert (c_ent m e s (k, Some v0) = (KObjSingle kk kv, s2)) as ->; [|rewrite E3; reflexivity].
+        unfold c_ent. destruct k; rewrite E1, E2; reflexivity.
+      + split; [eapply extends_trans; eassumption|].
+        intros defs Hc F c rho phi v Hag Hfr. constructor; [|apply (R3 defs (covers_right _ _ _ _ X12 X3 Hc) F c rho phi v Hag Hfr)].
+        pose proof (covers_left _ _ _ _ X12 X3 Hc) as Hc12.
+        intros fuel Hle. destruct fuel as [|mm]; [reflexivity|]. rewrite run_objsingle. unfold ent_one.
+        assert (ent_sem (fun t => sem mm t rho phi (labels c) v) mm (k, Some v0)
+                = smap (fun kv => from_map [kv]) (sbind (sem mm k rho phi (labels c) v) (fun a => smap (fun y => (a, y)) (sem mm v0 rho phi (labels c) v)))) as ->
+          by (destruct k; reflexivity).
+        rewrite (R1 defs (covers_left _ _ _ _ X1 X2 Hc12) mm c rho phi v (agrees_fuel _ F mm _ _ _ ltac:(lia) Hag) (funs_ok_fuel _ F mm _ _ _ ltac:(lia) Hfr)).
+        rewrite (R2 defs (covers_right _ _ _ _ X1 X2 Hc12) mm c rho phi v (agrees_fuel _ F mm _ _ _ ltac:(lia) Hag) (funs_ok_fuel _ F mm _ _ _ ltac:(lia) Hfr)).
+        reflexivity.
+    - (* no part *) intros b fs n m e s Hm Hsc Hfs. exists [], s. split; [reflexivity|]. split; [apply extends_refl|]. intros. constructor.
+    - (* literal text *) intros b fs n x r Hr IHr m e s Hm Hsc Hfs.
+      destruct (IHr m e s Hm Hsc Hfs) as (tr_ & s2 & E2 & X2 & R2).
+      exists (KStr x :: tr_), s2. split; [cbn [c_strs]; rewrite E2; reflexivity|]. split; [exact X2|].
+      intros defs Hc F c rho phi v Hag Hfr. constructor; [|apply (R2 defs Hc F c rho phi v Hag Hfr)].
+      intros fuel Hle. destruct fuel; reflexivity.
+    - (* interpolation *) intros b fs n f r Hf IHf Hr IHr m e s Hm Hsc Hfs.
+      destruct (IHf m e s [] Hm Hsc Hfs) as (kf & trf & s1 & E1 & X1 & R1).
+      destruct (IHr m e s1 Hm Hsc Hfs) as (tr_ & s2 & E2 & X2 & R2).
+      exists (KPipe kf None KToString :: tr_), s2. split; [cbn [c_strs]; rewrite E1, E2; reflexivity|].
+      split; [eapply extends_trans; eassumption|].
+      intros defs Hc F c rho phi v Hag Hfr. constructor; [|apply (R2 defs (covers_right _ _ _ _ X1 X2 Hc) F c rho phi v Hag Hfr)].
+      intros fuel Hle. destruct fuel as [|mm]; [reflexivity|]. rewrite run_pipe0. unfold part_one, part_sem.
+      rewrite (R1 defs (covers_left _ _ _ _ X1 X2 Hc) mm c rho phi v (agrees_fuel _ F mm _ _ _ ltac:(lia) Hag) (funs_ok_fuel _ F mm _ _ _ ltac:(lia) Hfr)).
+      f_equal. apply functional_extensionality. intros y. destruct mm; reflexivity.
   Qed.
 
 
@@ -1125,3 +1375,27 @@ Proof.
 Qed.
 Example sem_closures_ex d : sem d 14 closures_ex [] [] 0 Null = sone (Arr [vint 3; vint 5]).
 Proof. vm_compute. reflexivity. Qed.
+
+(** ... and by object and string construction, `..` and `if` without `else`, e.g.
+      1 as $x | {"a": ., $x, "b\($x)": [..], "c": (if $x then 2 end)}
+    whose semantics on null is {"a": null, "x": 1, "b1": [null], "c": 2} *)
+Definition objects_ex : pterm :=
+  let vx := of_ascii [36; 120]%Z in
+  let str c := PStr None [SPStr (of_ascii [c]%Z)] in
+  PBinOp (PNum (of_ascii [49]%Z)) (BPipe (Some (PPVar vx)))
+    (PObj [(str 97%Z, Some PId); (PVar vx, None);
+           (PStr None [SPStr (of_ascii [98]%Z); SPTerm (PVar vx)], Some (PArr (Some PRecurse)));
+           (str 99%Z, Some (PIte [(PVar vx, PNum (of_ascii [50]%Z))] None))]).
+Example frag_objects_ex : frag [] [] 12 objects_ex.
+Proof.
+  unfold objects_ex. cbv zeta. apply f_bind; [constructor|]. apply f_obj.
+  apply fk_kv; [apply f_str; repeat constructor|constructor|].
+  apply fk_var; [apply f_var; cbn; auto|].
+  apply fk_kv; [apply f_str; apply fs_lit; apply fs_term; [apply f_var; cbn; auto|apply fs_nil]|apply f_arr; constructor|].
+  apply fk_kv; [apply f_str; repeat constructor|apply f_ite1; [apply f_var; cbn; auto|constructor]|apply fk_nil].
+Qed.
+Example sem_objects_ex d : (forall v, d v = of_ascii [49]%Z) ->
+  sem d 14 objects_ex [] [] 0 Null
+  = sone (Obj [(TStr (of_ascii [97]%Z), Null); (TStr (of_ascii [120]%Z), vint 1);
+               (TStr (of_ascii [98; 49]%Z), Arr [Null]); (TStr (of_ascii [99]%Z), vint 2)]).
+Proof. intros Hd. vm_compute. rewrite ?Hd. reflexivity. Qed.
